@@ -1,11 +1,12 @@
 """C02 - byte-stream transports deliver exactly the accepted bytes, in order."""
 import json
-from gen import common, btcp
+from gen import common, btcp, api
 
 LEAN_MODULE = "XcmModel.Props.C02"
 THEOREMS = [
     "XcmModel.C02.C02_rc_range", "XcmModel.C02.C02_capacity", "XcmModel.C02.inv_run",
     "XcmModel.C02.C02_failed_call_no_trace", "XcmModel.C02.C02_btcp_prefix",
+    "XcmModel.Api.bsend_acc", "XcmModel.Api.finishAfter_spec", "XcmModel.C02.C02_bsend_accounting",
 ]
 
 
@@ -35,6 +36,24 @@ def run(ctx):
     if allops:
         m, il = ctx.differential("unit_btcp", "btcp", exe, allops, label="btcp")
         mon.run(allops, il)
+    # blocking-mode wrappers of xcm.c (bytestream_bsend / msg_bsend / socket_finish)
+    aexe = api.build()
+    amon = api.Monitor(ctx)
+    aops = []
+    for k in range(120 if quick else 4000):
+        aops += api.gen_history(ctx.rng.fork("api%d" % k), 25, ctx)
+        if len(aops) > 3000:
+            m, il = ctx.differential("unit_api", "api", aexe, aops, label="api")
+            amon.run(aops, il)
+            for o, l in zip(aops, m):
+                ctx.nontriv(("api", o.split()[0], l[:100]))
+            aops = []
+        if ctx.over_budget():
+            break
+    if aops:
+        m, il = ctx.differential("unit_api", "api", aexe, aops, label="api")
+        amon.run(aops, il)
+    ctx.rule += "; unit_api: the real xcm.c wrappers (blocking and non-blocking xcm_send/xcm_receive/xcm_finish/xcm_set_blocking) over a scripted transport and poll(), traces of transport calls and waits compared with the Lean Api model; monitor: offered ranges stay inside the caller's buffer, reported byte count = bytes the transport accepted, no -1/EINTR after acceptance"
 
 
 def replay(path):
